@@ -88,3 +88,74 @@ func VpC18_Decode(a []int) {
 	}
 	vpReach("end")
 }
+
+// VpC18_DecodedOps: a frame of a[0] octets (type a[1], count/FMT a[2] when
+// >= 0) sits at the start of a larger receive buffer; after decoding, the
+// read-only operations on the decoded packets must not store into the receive
+// buffer (decoders keep slices of it: payloads, profile extensions) nor into
+// the decoded packets, apart from the XR block headers.
+func VpC18_DecodedOps(a []int) {
+	n := a[0]
+	buf := vpBytes(n + 8)
+	b := buf[:n]
+	vpAssume(b[0]>>6 == 2 && int(b[2])<<8|int(b[3]) == n/4-1)
+	if a[1] == 0 {
+		vpAssume(b[1] < 200 || b[1] > 207)
+	} else {
+		vpAssume(int(b[1]) == a[1])
+	}
+	if a[2] >= 0 {
+		vpAssume(int(b[0]&0x1f) == a[2])
+	}
+	if a[1] == 205 && n >= 16 {
+		vpAssume(b[0]&0x1f != 15 || (b[14] == 0 && b[15] <= 8))
+	}
+	ps, err := Unmarshal(b)
+	if err != nil {
+		vpReach("end")
+		return
+	}
+	snap := append([]byte{}, buf...)
+	vpFreeze()
+	for i := 0; i < len(ps); i++ {
+		vpAllowXRHeaders(ps[i])
+		_, _ = ps[i].Marshal()
+		_ = ps[i].MarshalSize()
+		_ = ps[i].DestinationSSRC()
+		_, _ = ps[i].Marshal()
+	}
+	vpThaw()
+	vpAssert("C18.receive-buffer-unchanged", vpBytesEq(buf, snap))
+	vpReach("end")
+}
+
+// VpC18_DecodedOpsDirect: as VpC18_DecodedOps through a type's own decoder
+// (a[1] = 200 SR, 201 RR, 204 APP), which accepts lengths that are not a
+// multiple of four (profile extensions / data with 1..3 trailing octets).
+func VpC18_DecodedOpsDirect(a []int) {
+	n := a[0]
+	buf := vpBytes(n + 8)
+	b := buf[:n]
+	var p Packet
+	switch a[1] {
+	case 200:
+		p = new(SenderReport)
+	case 201:
+		p = new(ReceiverReport)
+	default:
+		p = new(ApplicationDefined)
+	}
+	if p.Unmarshal(b) != nil {
+		vpReach("end")
+		return
+	}
+	snap := append([]byte{}, buf...)
+	vpFreeze()
+	_, _ = p.Marshal()
+	_ = p.MarshalSize()
+	_ = p.DestinationSSRC()
+	_, _ = p.Marshal()
+	vpThaw()
+	vpAssert("C18.receive-buffer-unchanged", vpBytesEq(buf, snap))
+	vpReach("end")
+}
